@@ -111,7 +111,7 @@ Qed.
 Lemma desc_snoc : forall ds lo i, desc_below lo ds -> (forall j, In j ds -> i < j) -> i < lo -> desc_below lo (ds ++ [i]).
 Proof.
   induction ds; simpl; intros lo i H Hall Hi; [auto|].
-  destruct H. split; auto. apply IHds; auto.
+  destruct H. split; auto.
 Qed.
 
 Lemma asc_rev_desc : forall td lo n, asc_from lo td -> (forall i, In i td -> i < n) -> desc_below n (rev td).
@@ -123,6 +123,16 @@ Proof.
     destruct (asc_bound td (S a) n H2 (fun j Hj => Hn j (or_intror Hj)) j Hj). lia.
   - apply Hn; auto.
 Qed.
+
+Lemma rb_loop_length {A} : forall ds (b : list A) last b'' l'', rb_loop ds b last = (b'', l'') -> length b'' = length b.
+Proof.
+  induction ds; simpl; intros b last b'' l'' E.
+  - inversion E; auto.
+  - destruct (nth_error b (pred last)); apply IHds in E; auto. rewrite upd_length in E; auto.
+Qed.
+
+Lemma Forall2_rev {A B} (R : A -> B -> Prop) : forall l1 l2, Forall2 R l1 l2 -> Forall2 R (rev l1) (rev l2).
+Proof. induction 1; simpl; auto. apply Forall2_app; auto. Qed.
 
 (* The repaired ReleaseBuckets: for ascending in-range indices td, the result together with the
    buckets that stood at those indices is a permutation of the old list. *)
@@ -137,15 +147,9 @@ Proof.
   - eapply asc_rev_desc; eauto.
   - rewrite firstn_all, app_nil_r. apply Permutation_refl.
   - rewrite E. exists (rev picked). repeat split.
-    + apply Forall2_flip in F. assert (F' := F).
-      clear - F. rewrite <- (rev_involutive td).
-      induction F; simpl; auto.
-      apply Forall2_app; auto.
+    + rewrite <- (rev_involutive td). apply Forall2_rev; auto.
     + rewrite rev_length in L.
-      assert (length b'' = length b).
-      { clear - E. revert E. generalize (length b) at 1. generalize b at 1 3. induction (rev td); simpl; intros.
-        - inversion E; auto.
-        - destruct (nth_error b0 (pred n)); apply IHl in E; auto. rewrite upd_length in E; auto. }
+      assert (length b'' = length b) by (eapply rb_loop_length; eauto).
       rewrite firstn_length. lia.
     + rewrite app_nil_r in P. auto.
 Qed.
